@@ -41,6 +41,9 @@ CHECKS = {
     "C12": _c("exploration",
               "Every selection epoch of a random key history is simulated alone (fresh branch program, held inputs sampled at selection); per-instance runs and values, the switch output tick stream (== concatenation of the selected branches' outputs), one branch instance per selection incl. returns to earlier keys, the previous instance stopped at the switch, reload-on-tick, and an error for an unmatched key without default.",
               "DESIGN.md section 3 C12", TRUST, "runtime monitoring: per-selection-epoch differential against a standalone reference model"),
+    "C13": _c("exploration",
+              "Model equality on programs that route values through if_then_else references (several consumers per reference, selection chains, references passed into inlined/nested sub-graphs, same-value condition re-ticks, retargets to targets that ticked earlier/in the same cycle/never, retarget back): a consumer runs iff the reference was retargeted to a valid target or the selected target ticked, reads the target's value with modified == true, never on unselected-target ticks or re-published references. For TSS/TSD targets a mirror checks the value read through the reference, the target's own delta on target ticks and the old/new contents difference on retargets.",
+              "DESIGN.md section 3 C13", TRUST + " Property-silent corner (retarget to a target holding no value) accepts both notify / no-notify behaviours.", "runtime monitoring: instrumented consumers vs reference-routing model + shadow-state diff oracle"),
     "C14": _c("fault_enumeration",
               "Exhaustive single-fault enumeration per generated program: node x {start, evaluate, stop} x occurrence (1..3) x cleanup_on_error {on, off}, plus sampled fault pairs. A per-node-instance trace automaton over user-level start/stop/eval logs and LifecycleObserver events checks: start hook at most once, evaluations only between start and stop, exactly one stop iff the start completed, starts in index order and stops in reverse per graph (root and nested children), every started node stopped before run() returns (or before executor release with cleanup off), before/after event pairing, and that run() throws the original what().",
               "DESIGN.md section 3 C14", TRUST, "runtime monitoring with fault injection: exhaustive single-fault enumeration + lifecycle trace automaton"),
